@@ -1196,9 +1196,16 @@ fn mall_probe(pool: &Pool, lines: &mut Vec<String>) {
     let b = psbt.clone().finalize_mall_mut(&secp).is_ok();
     let c = psbt.clone().finalize_inp_mut(&secp, 0).is_ok();
     let d = psbt.clone().finalize_inp_mall_mut(&secp, 0).is_ok();
+    // does a finalized input keep its unknown key-value pairs (BIP174 says it should)?
+    let mut pu = psbt.clone();
+    pu.inputs[0].unknown.insert(unknown_key(9), vec![9]);
+    let fin_ok = pu.finalize_mall_mut(&secp).is_ok();
+    let keeps = fin_ok && !pu.inputs[0].unknown.is_empty();
     lines.push(
         J::obj(vec![
             ("t", J::s("mallprobe")),
+            ("keeps_unknown", J::B(keeps)),
+            ("unknown_probe_finalized", J::B(fin_ok)),
             ("finalize_mut", J::B(a)),
             ("finalize_mall_mut", J::B(b)),
             ("finalize_inp_mut", J::B(c)),
